@@ -260,13 +260,33 @@ def trace_events(seed, n):
 def run(ctx: Ctx):
     consts = dict(PX="-6..6", PY="-6..6", PZ="-2..2", Centres="{<<0,0,0>>,<<3,4,0>>,<<-3,0,4>>}", Sizes="{<<2,4,2>>,<<1,6,4>>,<<4,4,2>>}",
                   Dirs="{<<5,0>>,<<0,5>>,<<3,4>>,<<4,3>>,<<-4,3>>,<<-3,-4>>}", Scales="{<<1,1>>,<<3,2>>,<<2,1>>}", Areas="{%s,%s,%s}" % (SQ, SQCW, ELL),
-                  VisSet='{"full","partial","none"}', T0T1="{<<10,10>>,<<10,20>>}", MinPtsSet="{1,3,12}", MaxObjs="2", Sample="8" if ctx.quick else "60")
+                  VisSet='{"full","partial","none"}', T0T1="{<<10,10>>,<<10,20>>}", MinPtsSet="{1,3,12}", MaxObjs="2", Sample="8" if ctx.quick else "60",
+                  FarDists="{0, 37, 100, 101, 150, 300}")
     res = T.run_model("MC_Sensing", "MCSE_" + ctx.pid, consts, invariants=INV, model_values=(), tlc_kwargs=dict(dump=True, allow_violation=False, seed=ctx.seed, timeout=3000))
     ctx.add_tlc(res, "MC_Sensing (cloud = 13x13x5 lattice block)", must_take=["Eval"])
     states, _ = load_dump(res.dump_path, must_contain='phase = "done"')
     os.remove(res.dump_path)
     boxes = [(plain(st["box"]), plain(st["scale"]), plain(st["out"])) for st in states if st["kind"] == "box"]
     frames = [(plain(st["objs"]), plain(st["cfg"]), plain(st["areas"]), plain(st["out"])) for st in states if st["kind"] == "frame"]
+    # the distance-dependent scale itself (linear in the distance, also beyond 100 m), at both places that compute it
+    from perception_eval.evaluation.sensing.sensing_frame_config import SensingFrameConfig
+    from perception_eval.util.math import get_bbox_scale
+
+    for st in states:
+        if st["kind"] != "scale":
+            continue
+        (t0, t1), d = st["cfg"]["t"], st["scale"][0]
+        want = st["out"]["scaleAt"][0] / st["out"]["scaleAt"][1]
+        ctx.traces += 1
+        ctx.evaluations += 2
+        rep = {"box_scale_0m": t0 / 10.0, "box_scale_100m": t1 / 10.0, "distance": d, "spec": list(st["out"]["scaleAt"])}
+        try:
+            got1 = SensingFrameConfig(target_uuids=None, box_scale_0m=t0 / 10.0, box_scale_100m=t1 / 10.0, min_points_threshold=1).get_scale_factor(float(d))
+            got2 = get_bbox_scale(float(d), t0 / 10.0, t1 / 10.0)
+            if abs(got1 - want) > 1e-12 or abs(got2 - want) > 1e-12:
+                ctx.violation("scale-factor", "scale at %d m: frame config %r, manager %r, specification %r" % (d, got1, got2, want), rep)
+        except Exception as ex:
+            ctx.violation("raised", "scale factor raised %r" % (ex,), rep)
     for items, fn in ((boxes, replay_box), (frames, replay_frame)):
         outs = pmap(fn, items)
         for it, (n, mism) in zip(items, outs):
